@@ -20,7 +20,7 @@ from ..common import Ctx
 LEVEL = "exploration"
 SHARDS = {"quick": 16, "thorough": 16}
 FLOOR = {"quick": 150, "thorough": 3000}
-REQUIRED_COUNTERS = ["noop_reruns_host_variants", "noop_reruns_postprocessed", "tree_pairs_compared", "fresh_process_generations", "hash_seeds_distinct", "noop_reruns", "files_mtime_checked",
+REQUIRED_COUNTERS = ["noop_reruns_in_shared_core", "noop_reruns_host_variants", "noop_reruns_postprocessed", "tree_pairs_compared", "fresh_process_generations", "hash_seeds_distinct", "noop_reruns", "files_mtime_checked",
                      "tamper_edit_checks", "tamper_delete_checks", "show_diffs_contract_evals", "explicit_core_layouts", "clock_shifted_runs", "prior_run_scenarios",
                      "spec_rewritten_in_place_scenarios"]
 RULE = ("clean documents biased to what makes order matter (many schemas/imports, several path variables, colliding operationIds, inline "
@@ -385,8 +385,45 @@ def run_postprocessed(ctx: Ctx, d: specgen.Doc, n: int, layout: tuple[str, str |
             rec.violation(f"rerun:postprocess:files_touched:{label}", feats, dict(case, variant=label), "")
 
 
+def run_shared_core_reruns(ctx: Ctx) -> None:
+    """Two clients with different declared error sets share one core. Each was generated from its own unchanged document, so
+    a re-run without force over either of them must report no differences and touch nothing."""
+    from . import c11
+
+    rec = ctx.rec
+    layouts = [("acme.alpha", "acme.beta", "acme.core"), ("alpha", "beta", "sharedcore"), ("acme.apis.alpha", "other.beta", "acme.shared.core")]
+    pairs = [("d404", "d422_500"), ("d404_409_503", "dnone"), ("dnone", "d404"), ("d404", "d404")]
+    k = 0
+    for la in layouts:
+        for pa in pairs:
+            k += 1
+            if not ctx.mine(k):
+                continue
+            pkg_a, pkg_b, core = la
+            root = ctx.scratch.new("sharedcore")
+            docs = {pkg_a: c11.make_doc(pa[0]), pkg_b: c11.make_doc(pa[1])}
+            specs = {p: genrun.write_spec(d, root.parent / f"spec-{root.name}-{p.replace('.', '_')}") for p, d in docs.items()}
+            ok = all(genrun.generate(docs[p], root, p, core, force=True, spec_path=specs[p]).ok for p in (pkg_a, pkg_b))
+            if not ok:
+                rec.count("generations_rejected")
+                continue
+            tops = sorted({x.split(".")[0] for x in (pkg_a, pkg_b, core)})
+            for p in (pkg_a, pkg_b):
+                case = {"scenario": "shared_core_rerun", "layout": list(la), "error_sets": list(pa), "rerun_of": p}
+                before = digest(root, tops, with_mtime=True)
+                r = genrun.generate(docs[p], root, p, core, force=False, spec_path=specs[p])
+                rec.count("noop_reruns_in_shared_core")
+                rec.case(case, nontrivial=True)
+                feats = ["two_clients_share_one_core"] + (["different_error_sets"] if pa[0] != pa[1] else [])
+                if not r.ok:
+                    rec.violation("rerun:shared_core:up_to_date_output_reported_as_different", feats, case, (r.error or "")[:200])
+                elif digest(root, tops, with_mtime=True) != before:
+                    rec.violation("rerun:shared_core:files_touched", feats, case, "")
+
+
 def run_shard(ctx: Ctx) -> None:
     install_contract()
+    run_shared_core_reruns(ctx)
     total = 2 if ctx.quick else 40
     for b in range(total):
         run_doc(ctx, mk_doc(ctx), ctx.shard * 1000 + b, LAYOUTS[(ctx.shard + b) % len(LAYOUTS)])
@@ -399,7 +436,11 @@ def run_shard(ctx: Ctx) -> None:
 def replay(ctx: Ctx, file: dict) -> None:
     install_contract()
     c = file["case"]
-    d = specgen.Doc(c["doc"], {}, [], set())
+    d = specgen.Doc(c.get("doc") or {}, {}, [], set())
+    if c.get("scenario") == "shared_core_rerun":
+        ctx.shard, ctx.nshards = 0, 1
+        run_shared_core_reruns(ctx)
+        return
     if c.get("scenario") == "postprocess_cli":
         run_postprocessed(ctx, d, 1, (c["layout"][0], c["layout"][1]))
         return
